@@ -73,12 +73,14 @@ def main(tier):
     chk.rule("SPLICE", "selection queries splice the spendability predicates", floor=15)
     chk.rule("LOCK", "lock_outputs reads conflicts and writes in one transaction", floor=1)
     chk.rule("PS-1", "sibling pool code is a consistent renaming", floor=300)
+    chk.rule("PS-2", "Ironwood code equals its Orchard sibling up to the pool renaming", floor=80)
     chk.rule("PS-3", "pool-tagged arguments bind the same pool's parameters", floor=10)
     chk.rule("CONF", "the send-max query cannot return a note that lacks the policy's confirmations",
              floor=1)
     chk.rule("ANCHOR", "anchor and confirmations policy given to the selector are one policy's", floor=2)
     chk.rule("control", "positive controls", floor=2)
     ps_rules.ps1(chk, FILES)
+    ps_rules.ps2(chk, FILES)
     w = zf.World(extract.facts_dir("all"), ["zcash_client_backend", "zcash_client_sqlite"])
 
     def scope(f):
